@@ -4,6 +4,7 @@ import (
 	"fmt"
 	"go/token"
 	"go/types"
+	"strings"
 
 	"golang.org/x/tools/go/ssa"
 )
@@ -14,6 +15,7 @@ type attackAnchors struct {
 	Attack, Loop, Shutdown, Worker, Hit, HitDefer, Stop *ssa.Function
 	Results, Ticks, WG, Workers, Atk                    ssa.Value // cells (Allocs) in Attack
 	Pace                                                *ssa.Call
+	AtkT                                                *types.Named // the per-attack state type (today: attack)
 	Spawns                                              []spawnSite
 	Offers                                              []tickOffer
 	Shutdown4                                           []shutdownEvent
@@ -128,11 +130,28 @@ func resolveAttack(c *Ctx) *attackAnchors {
 			}
 		}
 	})
+	// the per-attack state: the struct (other than the Attacker) that hit receives by pointer
+	for k, p := range a.Hit.Params {
+		if k == 0 {
+			continue
+		}
+		if pt, ok := p.Type().(*types.Pointer); ok {
+			if n, ok := pt.Elem().(*types.Named); ok && n.Obj().Pkg() == a.Hit.Pkg.Pkg {
+				if _, isStruct := n.Underlying().(*types.Struct); isStruct {
+					a.AtkT = n
+				}
+			}
+		}
+	}
+	if a.AtkT == nil {
+		bad("hit receives no per-attack state object")
+		return a
+	}
 	// atk cell and workers cell in Attack
 	eachInstr(a.Attack, func(i ssa.Instruction) {
 		if al, ok := i.(*ssa.Alloc); ok {
 			if p, ok := al.Type().(*types.Pointer); ok {
-				if isNamedType(p.Elem(), "lib", "attack") {
+				if a.isAtk(p.Elem()) {
 					if _, isPtr := p.Elem().(*types.Pointer); isPtr {
 						a.Atk = al
 					}
@@ -144,6 +163,45 @@ func resolveAttack(c *Ctx) *attackAnchors {
 	a.Offers = a.resolveOffers()
 	a.Shutdown4, a.ShutdownRegistered = a.resolveShutdown()
 	return a
+}
+
+// isAtk: t is the per-attack state type or a pointer to it.
+func (a *attackAnchors) isAtk(t types.Type) bool {
+	if p, ok := t.(*types.Pointer); ok {
+		t = p.Elem()
+	}
+	n, ok := t.(*types.Named)
+	return ok && a.AtkT != nil && n.Obj() == a.AtkT.Obj()
+}
+
+// atkField: fa addresses the per-attack field playing the given role. Roles are recognised by
+// type (the one time.Time field is the start instant, the one string field is the attack name).
+func (a *attackAnchors) atkField(fa *ssa.FieldAddr, role string) bool {
+	if !a.isAtk(fa.X.Type()) {
+		return false
+	}
+	st := a.AtkT.Underlying().(*types.Struct)
+	want := -1
+	n := 0
+	for k := 0; k < st.NumFields(); k++ {
+		ft := st.Field(k).Type()
+		match := false
+		switch role {
+		case "began":
+			match = isNamedType(ft, "time", "Time")
+		case "name":
+			b, isB := ft.Underlying().(*types.Basic)
+			match = isB && b.Kind() == types.String
+		}
+		if match {
+			want = k
+			n++
+		}
+	}
+	if n != 1 {
+		return fieldName(fa.X.Type(), fa.Field) == role
+	}
+	return fa.Field == want
 }
 
 func (a *attackAnchors) ok(c *Ctx, prop string) bool {
@@ -564,12 +622,42 @@ func c02OneResultPerTick(c *Ctx, a *attackAnchors) {
 	c.Pass(key, rule, "tick → hit → send → back to receive; closed ticks → return", c.at(recv), c.at(hit), c.at(send))
 }
 
-// seqAccesses returns all FieldAddr instructions denoting attack.seq in lib.
-func seqAccesses(c *Ctx) []*ssa.FieldAddr {
+// seqCounter identifies the sequence counter structurally: the field whose load hit copies into
+// Result.Seq. It must belong to the per-attack state object (created once per Attack call), not
+// to the Attacker, which is shared by every attack it runs.
+func seqCounter(c *Ctx, a *attackAnchors) (owner types.Type, field int, why string) {
+	var src *ssa.FieldAddr
+	n := 0
+	for _, fn := range region(a.Hit) {
+		eachInstr(fn, func(i ssa.Instruction) {
+			st, ok := i.(*ssa.Store)
+			if !ok {
+				return
+			}
+			fa, ok := st.Addr.(*ssa.FieldAddr)
+			if !ok || !isNamedType(fa.X.Type(), "lib", "Result") || fieldName(fa.X.Type(), fa.Field) != "Seq" {
+				return
+			}
+			n++
+			if ld, isL := isLoad(st.Val); isL {
+				if cfa, isFA := ld.X.(*ssa.FieldAddr); isFA {
+					src = cfa
+				}
+			}
+		})
+	}
+	if n != 1 || src == nil {
+		return nil, 0, fmt.Sprintf("%d stores to Result.Seq in hit; want one, of a counter field", n)
+	}
+	return src.X.Type(), src.Field, ""
+}
+
+// seqAccesses returns all FieldAddr instructions denoting the sequence counter in lib.
+func seqAccesses(c *Ctx, owner types.Type, field int) []*ssa.FieldAddr {
 	var out []*ssa.FieldAddr
 	for _, fn := range c.P.RepoFuncs("lib") {
 		eachInstr(fn, func(i ssa.Instruction) {
-			if fa, ok := i.(*ssa.FieldAddr); ok && isNamedType(fa.X.Type(), "lib", "attack") && fieldName(fa.X.Type(), fa.Field) == "seq" {
+			if fa, ok := i.(*ssa.FieldAddr); ok && fa.Field == field && types.Identical(fa.X.Type(), owner) {
 				out = append(out, fa)
 			}
 		})
@@ -593,11 +681,18 @@ func c02SeqLockset(c *Ctx, a *attackAnchors) *seqFacts {
 	const rule = "every access to attack.seq is in hit while atk.seqmu is held; inside the region one load is copied to Result.Seq and one store writes that value + 1; the counter starts at the composite literal's zero"
 	key := "lockset:lib.attack.seq"
 	sf := &seqFacts{}
-	accs := seqAccesses(c)
-	if len(accs) == 0 {
-		c.Undecided(key, rule, "no access to attack.seq found")
+	owner, field, whyNot := seqCounter(c, a)
+	if owner == nil {
+		c.Undecided(key, rule, whyNot, c.fnAt(a.Hit))
 		return sf
 	}
+	if !a.isAtk(owner) || a.Atk == nil {
+		ownerName := types.TypeString(owner, func(p *types.Package) string { return p.Name() })
+		c.Fail(key, rule, "Result.Seq is numbered from a counter on "+ownerName+", which is not the per-attack state created by each Attack call: attacks run by the same Attacker share one numbering, so an attack's results no longer carry 0..n-1", c.fnAt(a.Hit))
+		return sf
+	}
+	accs := seqAccesses(c, owner, field)
+	counterName := fieldName(owner, field)
 	sf.fn = accs[0].Parent()
 	if sf.fn != a.Hit {
 		// accepted: a function literal of hit that is called exactly once, immediately
@@ -651,7 +746,8 @@ func c02SeqLockset(c *Ctx, a *attackAnchors) *seqFacts {
 			held := sf.ls.Held(r)
 			found := false
 			for _, h := range held {
-				if len(h) > 6 && h[len(h)-6:] == ".seqmu" {
+				// a mutex field of the same object as the counter
+				if k := strings.LastIndex(h, "."); k > 0 && path(fa) == "&"+h[:k]+"."+counterName {
 					mus[h] = true
 					found = true
 				}
@@ -688,9 +784,9 @@ func c02SeqLockset(c *Ctx, a *attackAnchors) *seqFacts {
 	// mutex belongs to the same attack object as seq
 	{
 		// the receiver path must be <x>.seqmu where accesses are <x>.seq
-		base := sf.mu[:len(sf.mu)-len(".seqmu")]
+		base := sf.mu[:strings.LastIndex(sf.mu, ".")]
 		for _, fa := range accs {
-			if path(fa) != "&"+base+".seq" {
+			if path(fa) != "&"+base+"."+counterName {
 				c.Fail(key, rule, "the mutex held belongs to a different object than the counter", c.at(fa))
 				return sf
 			}
